@@ -63,7 +63,7 @@ def agg_class(prog: Program):
     return prog.cls("panoptica_aggregator:Panoptica_Aggregator")
 
 
-def new_session(prog: Program, fs: FS, output_file, log_times=False, continue_file=None, ev_keys=None, values=None, root_state=None):
+def new_session(prog: Program, fs: FS, output_file, log_times=False, continue_file=None, ev_keys=None, values=None, root_state=None, extra_args=None):
     """Run the constructor.  Returns (aggregator Obj or None, outcome, interp)."""
     cls = agg_class(prog)
     init = cls.lookup("__init__")
@@ -78,12 +78,30 @@ def new_session(prog: Program, fs: FS, output_file, log_times=False, continue_fi
         args["log_times"] = log_times
     if continue_file is not None and "continue_file" in names:
         args["continue_file"] = continue_file
+    args.update(extra_args or {})
     it = AggInterp(prog, init, args, self_obj=o, fs=fs, ev_keys=ev_keys, values=values)
     it.root.no_inline = no_inline_set(prog)
     if root_state:
         it.root.lock_objs = root_state
     out = it.run()
     return (o if out.kind in ("end", "return") and not out.decisions else None), out, it
+
+
+def key_selection_options(prog: Program) -> list:
+    """constructor options of the aggregator, beyond the ones every session sets, that take a list of names and
+    default to None (a selection of result keys, ...): candidates for a run with a selection in another order"""
+    import ast
+
+    init = agg_class(prog).lookup("__init__")
+    out = []
+    for p in init.call_params:
+        if p.name in ("panoptica_evaluator", "output_file", "log_times", "continue_file"):
+            continue
+        ann = ast.unparse(p.annotation) if getattr(p, "annotation", None) is not None else ""
+        dflt = getattr(p, "default", None)
+        if "list[str]" in ann.replace(" ", "") and isinstance(dflt, ast.Constant) and dflt.value is None:
+            out.append(p.name)
+    return out
 
 
 def call(prog: Program, agg: Obj, method: str, args: dict, fs: FS, subject=None, ev_keys=None, values=None, lock_objs=None):
